@@ -11,16 +11,21 @@ def run(ctx):
     for be in backends:
         lib = build.build_lib(be)
         ctx.configs.append(lib["desc"])
-        exe = build.build_prog("c02", ["harness/c02.c", "harness/sysrand.c", "ref/ref.c"], lib)
+        exe = build.build_prog("c02", ["harness/c02.c", "harness/cpp_shim.cpp", "harness/sysrand.c", "ref/ref.c"], lib)
         for fam in range(5):
             for alg in range(3):
                 for pat in ((0, 3) if be == "asm" else (3,)):
                     jobs.append((exe, [fam, alg, pat, 1 if (ctx.thorough and be == "asm") else 0], be, fam == 4))
+        # the C++ classes of the same four families (asm and one C back end in quick)
+        if ctx.thorough or be in ("asm", "c32"):
+            for fam in range(5, 9):
+                for alg in range(3):
+                    jobs.append((exe, [fam, alg, 3, 0], be, fam == 8))
     # the masked family additionally under other share counts (its decrypt path differs per data-share count)
     for be in ("asm", "c64", "c32"):
         for tr in ([(2, 1, 2), (3, 3, 3), (4, 4, 4), (4, 1, 4), (3, 2, 3)] if not ctx.thorough else [t for t in build.ALL_TRIPLES if t != build.DEFAULT_TRIPLE]):
             lib = build.build_lib(be, tr)
-            exe = build.build_prog("c02", ["harness/c02.c", "harness/sysrand.c", "ref/ref.c"], lib)
+            exe = build.build_prog("c02", ["harness/c02.c", "harness/cpp_shim.cpp", "harness/sysrand.c", "ref/ref.c"], lib)
             ctx.configs.append(lib["desc"])
             for alg in range(3):
                 jobs.append((exe, [2, alg, 3, 0], "%s-k%dd%dm%d" % ((be,) + tr), False))
